@@ -57,6 +57,11 @@ def parseLToks (ts : List String) : Option (List (Option (List Int))) :=
 
 def showList (xs : List Int) : String := "[" ++ ",".intercalate (xs.map toString) ++ "]"
 
+/-- state in which ReadAllResults leaves a JSONIter: Next until it returns false or yields an error -/
+def jdrain {α : Type} : Nat → JIt α → JIt α
+  | 0, j => j
+  | f + 1, j => let r := j.next; if r.2 && !r.1.err then jdrain f r.1 else r.1
+
 def step (c : Cur) (line : String) : Cur × String :=
   match (line.trimAscii.toString.splitOn " ").filter (· ≠ "") with
   | ["case", n] => (.none, s!"case {n}")
@@ -98,6 +103,20 @@ def step (c : Cur) (line : String) : Cur × String :=
     match c with
     | .it sh st => (c, s!"nexts={(source sh st).nexts} closes={(source sh st).closes}")
     | _ => (c, "bad-op")
+  | ["rares"] =>   -- ReadAllResults(ToResultIter(it)): the drain loop without Close
+    match c with
+    | .it sh st =>
+      let r := drain sh (remaining sh st + 1) st
+      (.it sh r.1, s!"{showList r.2} nexts={(source sh r.1).nexts} closes={(source sh r.1).closes}")
+    | .json j =>
+      match JIt.readAllResults (j.toks.length + 1) j 0 [] with
+      | .inl vs => (.json (jdrain (j.toks.length + 1) j), showList vs)
+      | .inr i => (.json (jdrain (j.toks.length + 1) j), s!"err@{i}")
+    | .jsonL j =>
+      match JIt.readAllResults (j.toks.length + 1) j 0 [] with
+      | .inl vs => (.jsonL (jdrain (j.toks.length + 1) j), "[" ++ ",".intercalate (vs.map showList) ++ "]")
+      | .inr i => (.jsonL (jdrain (j.toks.length + 1) j), s!"err@{i}")
+    | .none => (c, "bad-op")
   | ["readall"] =>
     match c with
     | .it sh st =>
